@@ -16,6 +16,7 @@
   correspondence run (harness/src/bin/c14.rs: a lost wake-up shows as `TIMEOUT`) can exhibit.
 -/
 import YashModel.Pipe.Progress
+import YashModel.Pipe.FlowLemmas
 import YashModel.Pipe.FdLemmas
 import YashModel.Pipe.FileLemmas
 import YashModel.Pipe.TwoWritersLemmas
@@ -51,49 +52,8 @@ theorem no_epipe (c : Cfg) (payload : List α) (s : Sys α) (hr : Reach c payloa
     Uses `PIPE_BUF ≤ PIPE_SIZE` (an empty pipe is ready for writing). -/
 theorem pipe_no_deadlock (c : Cfg) (hv : c.Valid) (payload : List α) (s : Sys α)
     (hr : Reach c payload s) (hnf : s.final = false) :
-    ∃ a s', a.ok = true ∧ s.step c a = some s' := by
-  have hi := inv_reach hr
-  obtain ⟨cons, cap, rd, wr, done_imp, closed_imp, nofail⟩ := hi
-  cases hw : s.wpc with
-  | run =>
-    obtain ⟨s', hs⟩ := stepW_run_some c s 1 hw
-    exact ⟨.w 1, s', rfl, hs⟩
-  | failed => exact absurd hw nofail
-  | wait =>
-    cases hrp : s.rpc with
-    | run =>
-      obtain ⟨s', hs⟩ := stepR_run_some s 1 hrp
-      exact ⟨.r 1, s', rfl, hs⟩
-    | done =>
-      have := (done_imp hrp).1
-      simp [hw] at this
-    | wait =>
-      by_cases hc : s.pipe.content.length = 0
-      · have hrw : s.pipe.readyW c = true := by
-          rw [readyW_iff]
-          have := hv.2
-          omega
-        obtain ⟨s', hs⟩ := stepW_wait_some c s 1 hw hrw
-        exact ⟨.w 1, s', rfl, hs⟩
-      · have hrr : s.pipe.readyR = true := by
-          rw [readyR_iff]
-          exact Or.inr hc
-        obtain ⟨s', hs⟩ := stepR_wait_some s 1 hrp hrr
-        exact ⟨.r 1, s', rfl, hs⟩
-  | closed =>
-    cases hrp : s.rpc with
-    | run =>
-      obtain ⟨s', hs⟩ := stepR_run_some s 1 hrp
-      exact ⟨.r 1, s', rfl, hs⟩
-    | done => simp [Sys.final, hw, hrp] at hnf
-    | wait =>
-      have hrr : s.pipe.readyR = true := by
-        rw [readyR_iff]
-        left
-        rw [wr]
-        simp [hw]
-      obtain ⟨s', hs⟩ := stepR_wait_some s 1 hrp hrr
-      exact ⟨.r 1, s', rfl, hs⟩
+    ∃ a s', a.ok = true ∧ s.step c a = some s' :=
+  enabled_of_inv c hv payload s (inv_reach hr) hnf
 
 /-- ★ End of file exactly when done: for a reader that has not finished, a `read` into a buffer of
     `n ≥ 1` bytes returns 0 if and only if the writer has closed and the buffer has drained. -/
@@ -298,6 +258,105 @@ theorem stages_identity (f : List α → List α) (hf : ∀ x, f x = x) (k : Nat
   | zero => rfl
   | succ m ih => simp [stages, hf, ih]
 
+/-! ### end to end: what the driver computes is what the property says -/
+
+/-- ★ The function the model driver runs for one pipe — the seeded scheduler `runSchedStop` started in
+    `Sys.init x` with the fuel the driver gives it — returns exactly the payload: for every payload,
+    every valid capacity, every schedule seed, every writer piece size and every reader buffer size.
+    (Chain: the scheduler only takes `Sys.step`s with requests ≥ 1 → `Reach`; every step lowers the
+    measure, which starts below the fuel; where neither move is possible no step at all is possible →
+    `pipe_no_deadlock` says the state is final → the invariant gives `received = payload`.) -/
+theorem transfer_delivers (c : Cfg) (hv : c.Valid) (seed wk rk : Nat) (x : List α) :
+    transfer c seed wk rk x = some x :=
+  transfer_eq c hv seed wk rk x
+
+/-- nested command substitution: trimming what an inner `$( )` produced (re-terminated by `echo`'s
+    newline) gives the same value as the inner substitution — nothing more is lost on the way out -/
+theorem nested_subst_same [DecidableEq α] (nl : α) (s : List α) :
+    trimEnd nl (trimEnd nl s ++ [nl]) = trimEnd nl s := by
+  have h := trim_exact nl s
+  exact (trim_unique nl (trimEnd nl s ++ [nl]) (trimEnd nl s) 1 (by simp) h.2).symm
+
+/-- ★ End to end for a whole shell-level flow: for every shape made of pipeline stages (`c`, `y`),
+    groups (`g`), command substitutions (`s`) and here-documents with expansion (`h`) — any number of
+    them, nested in any order —, every input and every schedule seed, the Impl model of the flow
+    (each pipe a scheduled run of writer ∥ reader, each `$( )` the code's decode-and-trim) yields
+    exactly what the Spec of the flow says (pipes are the identity; `$( )` removes exactly the
+    trailing newlines, by the recursive `specTrim`). -/
+theorem flow_model_eq_spec (c : Cfg) (hv : c.Valid) (shape : List Char)
+    (hs : ∀ ch ∈ shape, ch = 'c' ∨ ch = 'y' ∨ ch = 'g' ∨ ch = 's' ∨ ch = 'h') (seed : Nat) (x : List Nat) :
+    flowModel c seed shape x = some (flowSpec shape x) := by
+  induction shape generalizing seed x with
+  | nil => rfl
+  | cons ch rest ih =>
+    have hrest : ∀ d ∈ rest, d = 'c' ∨ d = 'y' ∨ d = 'g' ∨ d = 's' ∨ d = 'h' :=
+      fun d hd => hs d (List.mem_cons_of_mem ch hd)
+    have hch := hs ch List.mem_cons_self
+    simp only [flowModel, flowSpec, transfer_eq c hv, Option.bind_some, specTransfer, specSubst, substValue,
+      trim_eq_spec]
+    rcases hch with h | h | h | h | h <;> subst h <;> simp [ih hrest]
+
+/-! ### the Spec's POSIX laws are met by the model operations (Spec column characterised) -/
+
+/-- the model's `write` obeys the POSIX write law of the Spec (`specWriteOk`, incl. the `_POSIX_PIPE_BUF`
+    atomicity bound) in every state within capacity, for every request -/
+theorem write_meets_spec (c : Cfg) (hp : posixPipeBuf ≤ c.pipeBuf) (p : Fifo α) (buf : List α)
+    (hcap : p.content.length ≤ c.pipeSize) :
+    specWriteOk c p buf.length (p.write c buf).1 (p.write c buf).2 buf = true := by
+  unfold Fifo.write Fifo.room
+  by_cases hr : p.readers = 0
+  · simp [hr, specWriteOk]
+  · simp only [hr, if_false]
+    by_cases h1 : c.pipeSize - p.content.length < buf.length
+    · simp only [h1, if_true]
+      by_cases h2 : c.pipeSize - p.content.length = 0 ∨ buf.length ≤ c.pipeBuf
+      · simp only [h2, if_true, specWriteOk]
+        have hor : buf.length ≤ c.pipeBuf ∨ buf.length ≤ posixPipeBuf ↔ buf.length ≤ c.pipeBuf := by
+          constructor
+          · rintro (h | h) <;> omega
+          · exact Or.inl
+        simp only [hor]
+        by_cases h3 : buf.length ≤ c.pipeBuf
+        · simp [h3, hr, h1]
+        · simp only [h3, if_false]
+          have : c.pipeSize - p.content.length = 0 := by
+            rcases h2 with h | h
+            · exact h
+            · exact absurd h h3
+          simp [hr, this]
+      · simp only [h2, if_false, specWriteOk]
+        have h3 : ¬ buf.length ≤ c.pipeBuf := fun h => h2 (Or.inr h)
+        have h4 : ¬ buf.length ≤ posixPipeBuf := by omega
+        have h5 : c.pipeSize - p.content.length ≠ 0 := fun h => h2 (Or.inl h)
+        simp only [h3, h4, or_self, if_false]
+        simp [hr, List.length_take]
+        omega
+    · simp only [h1, if_false, specWriteOk]
+      simp [hr]
+      omega
+
+/-- the model's `read` obeys the POSIX read law of the Spec (`specReadOk`) in every state, for every size -/
+theorem read_meets_spec (p : Fifo α) (n : Nat) :
+    specReadOk p n (match (p.read n).1 with | .block => true | .data _ => false)
+      (match (p.read n).1 with | .block => 0 | .data bs => bs.length) = true := by
+  unfold Fifo.read specReadOk
+  by_cases hn : n = 0
+  · simp [hn]
+  · simp only [hn, if_false]
+    by_cases hb : p.content.length = 0 ∧ 0 < p.writers
+    · have hc : p.content = [] := List.eq_nil_of_length_eq_zero hb.1
+      simp only [hb, and_self, if_true]
+      simp [hc]
+      omega
+    · simp only [hb, if_false]
+      by_cases hc : p.content = []
+      · have : ¬ 0 < p.writers := fun h => hb ⟨by simp [hc], h⟩
+        simp [hc]
+        omega
+      · have hl : 0 < p.content.length := List.length_pos_iff.mpr hc
+        have : min n p.content.length ≠ 0 := by omega
+        simp [List.length_take, this]
+
 /-! ### a consumer that stops early, EPIPE -/
 
 /-- `write` fails with EPIPE exactly when the pipe has no reader, and then nothing is buffered -/
@@ -424,6 +483,26 @@ theorem cmdsubst_stdout_is_writer (t : Table) (p : Nat) (r w : Fd) (hrw : r ≠ 
     rw [e]
     refine ⟨_, rfl, ?_, ?_, ?_, ?_⟩ <;> grind [Table.set]
 
+/-- End to end for the descriptor side: the function the driver runs for a command substitution
+    (`substRun`: lowest unused descriptors, as `Process::open_fd` allocates, then the child prologue)
+    reports `connected` for every table that has two unused descriptors below 64 — descriptor 1 is the
+    writing end and none of the descriptors it inspects is a stray end of the pipe. -/
+theorem substRun_connected (t : Table) (p : Nat) (hf : t.Fresh p)
+    (h : ∃ a b : Nat, a < b ∧ b < 64 ∧ t a = none ∧ t b = none) : (substRun t p).2 = true := by
+  obtain ⟨r, w, e, hrw, _, _⟩ := alloc2_spec t h
+  unfold substRun
+  rw [e]
+  simp only
+  obtain ⟨t', ht', h1, hw, hr, _⟩ := cmdsubst_stdout_is_writer t p r w hrw hf
+  rw [ht']
+  simp only [h1, beq_self_eq_true, Bool.true_and, noStray, List.all_eq_true]
+  intro fd _
+  have a1 := hr fd
+  by_cases e : fd = 1
+  · subst e; simp [a1]
+  · have a2 := hw fd e
+    simp [a1, a2]
+
 /-- … parent side (`expand_common`): after closing the writer the shell holds the reading end at
     `r` and nothing else of the pipe, so end of file arrives when the child's copies are closed. -/
 theorem cmdsubst_parent_keeps_reader (t : Table) (p : Nat) (r w : Fd) (hrw : r ≠ w) (hf : t.Fresh p) :
@@ -491,6 +570,20 @@ theorem heredoc_delivers_bytes (body : List Char) :
     refine ⟨by rw [h.1, List.take_of_length_le hs], fun n => ?_⟩
     rw [h.2, List.take_of_length_le hs]
     simp [RegOfd.read]
+
+/-- … in particular a `cat`-like reader (buffers of 1024 bytes, `|body|/1024 + 2` calls, as the driver
+    runs it) drains exactly `utf8 body` -/
+theorem heredoc_cat_drains (body : List Char) :
+    (heredocFill (utf8 body)).map (fun o => (o.reads (List.replicate ((utf8 body).length / 1024 + 2) 1024)).1) =
+      some (utf8 body) := by
+  obtain ⟨o, ho, _, _, _, hall⟩ := heredoc_delivers_bytes body
+  rw [ho]
+  simp only [Option.map_some, Option.some.injEq]
+  refine (hall _ ?_).1
+  rw [sum_replicate_nat]
+  have := Nat.div_add_mod (utf8 body).length 1024
+  have := Nat.mod_lt (utf8 body).length (by decide : 0 < 1024)
+  omega
 
 /-- Why the rewind must be in *bytes*: rewinding (relative to the end of what was written) by the
     number of *characters* makes the reader see `utf8 body` without its first
@@ -615,5 +708,29 @@ example :
     readLineChunked true 10 input [] [1, 1, 1, 1, 1, 1] = readLineChunked true 10 input [] [9, 9, 9] ∧
     readLineChunked true 10 input [] [1, 1, 1, 1, 1, 1] = .line (utf8 "a東b".toList) true [] := by
   decide
+
+/-- `transfer_delivers` at the real capacity (hypothesis met by `real_valid`) and, evaluated, in a small one -/
+example : transfer Cfg.real 7 513 3 (List.range 3000) = some (List.range 3000) :=
+  transfer_delivers Cfg.real real_valid 7 513 3 _
+
+example : transfer { pipeSize := 8, pipeBuf := 4 } 5 0 3 (List.range 20) = some (List.range 20) := by decide
+
+/-- `flow_model_eq_spec` on `… | cat`, `echo "$( … )"`, `| cat` with two trailing newlines: both sides evaluated -/
+example :
+    flowModel { pipeSize := 8, pipeBuf := 4 } 3 "csc".toList [97, 10, 98, 10, 10] = some [97, 10, 98, 10] ∧
+    flowSpec "csc".toList [97, 10, 98, 10, 10] = [97, 10, 98, 10] := by
+  decide
+
+/-- the hypotheses of `write_meets_spec` are met by the real constants and the freshly created pipe -/
+example (buf : List Nat) :
+    specWriteOk Cfg.real ({ content := [], readers := 1, writers := 1 } : Fifo Nat) buf.length
+      (({ content := [], readers := 1, writers := 1 } : Fifo Nat).write Cfg.real buf).1
+      (({ content := [], readers := 1, writers := 1 } : Fifo Nat).write Cfg.real buf).2 buf = true :=
+  write_meets_spec Cfg.real real_posix_pipe_buf _ buf (by simp)
+
+/-- `substRun_connected` on the `exec >&-` table (descriptor 1 closed, so the reading end lands on 1) -/
+example : (substRun (fun fd => if fd = 0 ∨ fd = 2 then some .file else none) 7).2 = true :=
+  substRun_connected _ 7 (by intro fd; by_cases h : fd = 0 ∨ fd = 2 <;> simp [h])
+    ⟨1, 3, by decide, by decide, by decide, by decide⟩
 
 end YashModel.Pipe
